@@ -78,6 +78,8 @@ pub struct State<'a, 'gc> {
     pub seed: u32,
     pub addr2id: HashMap<usize, u32>,
     pub strong: Vec<(u32, GcWeak<'gc, Payload>, Rc<Cell<u32>>)>,
+    /// tokens that elements hold only WEAKLY (they must not be retained by the container)
+    pub weak_only: Vec<(u32, GcWeak<'gc, Payload>, Rc<Cell<u32>>)>,
     pub cases: usize,
     pub evaluations: usize,
     pub only: Option<String>,
@@ -94,6 +96,7 @@ impl<'a, 'gc> State<'a, 'gc> {
             seed,
             addr2id: HashMap::new(),
             strong: Vec::new(),
+            weak_only: Vec::new(),
             cases: 0,
             evaluations: 0,
             only,
@@ -158,8 +161,9 @@ impl<'gc> Elem<'gc> for El<'gc> {
             d.push((t, 'S'));
         }
         for j in 0..nw {
-            let (g, t, _) = st.token();
+            let (g, t, drops) = st.token();
             e.w[j] = Some(Gc::downgrade(g));
+            st.weak_only.push((t, Gc::downgrade(g), drops));
             d.push((t, 'W'));
         }
         (e, d)
@@ -242,7 +246,20 @@ pub fn run_case<'gc, C: Collect<'gc> + ?Sized>(
     own: Vec<(&str, Option<u32>, char)>,
     value: &C,
 ) {
-    if !st.exercised.iter().any(|x| x == impl_id) {
+    run_case_as(st, "case", impl_id, pos, own, value)
+}
+
+/// `kind` = "case": a provided impl (counted in `exercised`); "dyncase": the same value traced through
+/// the object-safe adapter (`dyn DynCollect` / a `dyn_collect!` trait object), `impl_id` names the route.
+pub fn run_case_as<'gc, C: Collect<'gc> + ?Sized>(
+    st: &mut State<'_, 'gc>,
+    kind: &str,
+    impl_id: &str,
+    pos: Vec<(String, PosDesc)>,
+    own: Vec<(&str, Option<u32>, char)>,
+    value: &C,
+) {
+    if kind == "case" && !st.exercised.iter().any(|x| x == impl_id) {
         st.exercised.push(impl_id.to_string());
     }
     let real_nt = C::NEEDS_TRACE;
@@ -288,7 +305,8 @@ pub fn run_case<'gc, C: Collect<'gc> + ?Sized>(
         })
         .collect();
     println!(
-        "{{\"kind\":\"case\",\"impl\":{},\"inst\":{},\"pos\":[{}],\"own\":[{}],\"own_discovered\":{},\"stray\":{:?},\"real_nt\":{},\"direct\":{},\"guarded\":{}}}",
+        "{{\"kind\":{},\"impl\":{},\"inst\":{},\"pos\":[{}],\"own\":[{}],\"own_discovered\":{},\"stray\":{:?},\"real_nt\":{},\"direct\":{},\"guarded\":{}}}",
+        jstr(kind),
         jstr(impl_id),
         jstr(std::any::type_name::<C>()),
         pos_s.join(","),
